@@ -45,7 +45,17 @@ def random_cases(rng, count):
         if rng.random() < 0.5:
             ef = rng.uniform(0.2, 4.0)
             c["exp_f"] = ef
-        kind = rng.choice(["affine", "affine", "local", "linear", "weights"])
+        wide = s not in ("PiecewiseConstant", "CubicSpline") and rng.random() < 0.15
+        if wide:
+            # a transition window WIDER than the interval (alpha in (1, 2] or an explicit a in n+1 .. 2n): the two halves overlap and
+            # reach back into samples the previous interval has already written (seed C07j: border value read from the result array)
+            xs, ys = lattice_series(rng, 4, 8, vals=tuple(range(-12, 13)), den=1 if adaptive else rng.choice([1, 4]))
+            c.update(x=[R(v) for v in xs], y=[R(v) for v in ys], m=len(xs))
+            if rng.random() < 0.5:
+                c.update(a=-1, alpha=R(rng.choice([Fraction(5, 4), Fraction(3, 2), Fraction(2)])))
+            else:
+                c.update(a=rng.randint(n + 1, 2 * n))
+        kind = rng.choice(["affine", "affine", "local", "linear", "weights"] + (["local"] * 3 if wide else []))
         if s == "CubicSpline" and kind == "local":
             kind = "affine"
         if adaptive and kind in ("linear", "weights"):
